@@ -195,6 +195,7 @@ Definition property_holds (c : case) : Prop :=
   | IChain l =>
       (exists l', sp = Chain l' /\ vseqb l' l = true)         (* the chain is the Metropolis chain, bit for bit *)
       /\ length l = c_n c                                     (* requested number of states *)
+      /\ c_out_f64 c = true                                   (* a float64 array, whatever the start's storage *)
       /\ (is_finite (tg (c_x0 c)) = true ->                   (* never leaves the support *)
           Forall (fun x => is_finite (tg x) = true) l)
   end.
@@ -206,12 +207,53 @@ Proof.
   destruct (c_impl c) as [|l].
   - split; auto.
     destruct (spec _ _ _ _ _ _ _); simpl in R; try discriminate; reflexivity.
-  - repeat (apply andb_true_iff in H; destruct H as [H ?]).
-    split; [|split].
+  - apply andb_true_iff in H; destruct H as [H HS].
+    apply andb_true_iff in H; destruct H as [H HI].
+    apply andb_true_iff in H; destruct H as [HL HF].
+    split; [|split; [|split]].
     + destruct (spec _ _ _ _ _ _ _) as [| |l'] eqn:E; simpl in R; try discriminate.
       exists l'. auto.
     + apply Nat.eqb_eq; auto.
-    + intros F. rewrite F in H0. simpl in H0.
+    + exact HF.
+    + intros F. rewrite F in HS. simpl in HS.
       apply Forall_forall. intros x Hx.
-      rewrite forallb_forall in H0. apply H0 in Hx. apply andb_true_iff in Hx. tauto.
+      rewrite forallb_forall in HS. apply HS in Hx. apply andb_true_iff in Hx. tauto.
 Qed.
+
+(** ---- the entry point in the caller's storage ---- *)
+
+(** Only the binary64 values of the start and of the proposal scales enter the chain: the entry
+    point is the spec chain started from [map to_f64 start] with scales [map to_f64 sigma_in]. *)
+Theorem entry_refines_spec : forall target expf sigma_in n w start st,
+  metropolis_entry target expf sigma_in n w start st
+  = spec target expf (map to_f64 sigma_in) n w (map to_f64 start) st.
+Proof. intros. unfold metropolis_entry. apply metropolis_refines_spec. Qed.
+
+(** Two starts (and scale vectors) holding the same numbers in different storage - an int64
+    array, a float32 array, a list of Python ints, a float64 array - give the same chain. *)
+Theorem entry_storage_independent : forall target expf g1 g2 n w s1 s2 st,
+  map to_f64 s1 = map to_f64 s2 -> map to_f64 g1 = map to_f64 g2 ->
+  metropolis_entry target expf g1 n w s1 st = metropolis_entry target expf g2 n w s2 st.
+Proof. intros target expf g1 g2 n w s1 s2 st Hs Hg. unfold metropolis_entry. rewrite Hs, Hg. reflexivity. Qed.
+
+(** in particular the chain from any storage is the chain from the float64 copy of the start *)
+Theorem entry_as_f64 : forall target expf sigma_in n w start st,
+  metropolis_entry target expf sigma_in n w start st
+  = metropolis_entry target expf (map NF (map to_f64 sigma_in)) n w (map NF (map to_f64 start)) st.
+Proof.
+  intros. apply entry_storage_independent; rewrite map_map; simpl; rewrite map_map; reflexivity.
+Qed.
+
+(** the model's own output for a start in any storage: a walk of exact double-precision steps
+    [x -> x or x + sigma * z] from the binary64 values of the start, [n] states, finite support *)
+Theorem entry_model_ok : forall target expf sigma_in n w start st,
+  let x0 := map to_f64 start in
+  let sigma := map to_f64 sigma_in in
+  match metropolis_entry target expf sigma_in n w start st with
+  | Chain l => length l = n /\ (finite_at target x0 -> Forall (finite_at target) l)
+               /\ exists ds, pairs (n + w) st = Some ds /\ l = skipn w (scan target expf sigma x0 ds)
+                             /\ walk target expf sigma x0 ds (scan target expf sigma x0 ds)
+  | BadInit => is_infinity (target x0) = true
+  | StreamError => pairs (n + w) st = None
+  end.
+Proof. intros. unfold metropolis_entry. apply metropolis_model_ok. Qed.
